@@ -57,6 +57,11 @@ def run(P, rep, tier):
     # package / schema records are removed exactly when unused: the emptiness tests look at the stored group itself
     # (cleanup rule of C06.R4)
     rep.attempt(c06.r4_cleanup, P, rep, ctx)
+    # ... and are removed only for objects that go away: who may call TOCLinks.unregister (C06.R10)
+    rep.attempt(c06.r10_unregister_callers, P, rep, ctx)
+    # what is stored is the serialisation of the validated object (pairing rules of C06.R1): input that merely parses is not
+    # what the embedded JSON Schema describes
+    rep.attempt(c06.r1_pairing, P, rep, ctx)
     rep.floor("C20.R1", 12)
     rep.floor("C20.R2", 12)
     rep.floor("C20.R3", 18)
